@@ -11,7 +11,7 @@ import ast
 
 from ..core import UNKNOWN, AnalysisError, FuncInfo, call_name, get_arg, is_self_attr, norm, walk_no_nested
 from ..cfg import CFG
-from ..paths import cfg_of, node_of, reaching_defs, structural_guards
+from ..paths import canon, cfg_of, node_of, reaching_defs, structural_guards
 
 EXPLANATION = (
     "Text-conservation rules on the mechanism of every insertion and removal: wherever a string read from a text "
@@ -88,10 +88,21 @@ def _cut_sites(repo):
     if len(arms) != 2:
         raise AnalysisError(f"R09a: expected 2 text-node loops in _by_regex_offset, found {len(arms)}")
     for arm in arms:
-        sites.append((wrapper, arm, "text_str"))
+        sites.append((wrapper, arm, _cut_var(arm)))
     ins = repo.func("Element._insert")
-    sites.append((ins, ins.node, "text"))
+    sites.append((ins, ins.node, _cut_var(ins.node)))
     return sites, wrapper, arms
+
+
+def _cut_var(scope: ast.AST) -> str:
+    """The local that is cut: the name sliced most often with `[a:b]` slices in the scope."""
+    count: dict[str, int] = {}
+    for n in walk_no_nested(scope):
+        if isinstance(n, ast.Subscript) and isinstance(n.slice, ast.Slice) and isinstance(n.value, ast.Name) and n.slice.step is None:
+            count[n.value.id] = count.get(n.value.id, 0) + 1
+    if not count or max(count.values()) < 2:
+        raise AnalysisError("R09a: no local is cut into slices here any more")
+    return max(sorted(count), key=lambda k: count[k])
 
 
 def r09a(ctx):
@@ -116,12 +127,24 @@ def r09a(ctx):
                            f"the piece {var}[{lo or ''}:{hi or ''}] is cut out and never written back: that text disappears from the paragraph")
     # the text is re-read from the live slot, not from the (static) text node, in both arms
     for arm in arms:
-        defs = [n for n in walk_no_nested(arm) if isinstance(n, ast.Assign) and isinstance(n.targets[0], ast.Name) and n.targets[0].id == "text_str"]
-        srcs = sorted({ast.unparse(d.value) for d in defs})
-        ok = srcs == ["container.tail or ''", "container.text or ''"]
-        ctx.instance("R09a", f"{wrapper.file}:{wrapper.ident}", f"text_str read from {srcs}", ok=ok, nontrivial=True, line=arm.lineno)
+        cv = _cut_var(arm)
+        defs = [n for n in walk_no_nested(arm) if isinstance(n, ast.Assign) and isinstance(n.targets[0], ast.Name) and n.targets[0].id == cv]
+        owners = set()
+        shapes = set()
+        for d in defs:
+            v = d.value
+            # `<owner>.text or ""` / `<owner>.tail or ""`
+            if isinstance(v, ast.BoolOp) and isinstance(v.op, ast.Or) and isinstance(v.values[0], ast.Attribute) and v.values[0].attr in ("text", "tail") \
+                    and isinstance(v.values[-1], ast.Constant) and v.values[-1].value == "":
+                owners.add(ast.unparse(v.values[0].value))
+                shapes.add(v.values[0].attr)
+            else:
+                shapes.add("?" + norm(v, 30))
+        # the owner is the parent of the text node (the element whose slot holds it), not the node itself
+        ok = shapes == {"text", "tail"} and len(owners) == 1 and canon(wrapper, ast.parse(next(iter(owners)), mode="eval").body).endswith(".parent")
+        ctx.instance("R09a", f"{wrapper.file}:{wrapper.ident}", f"the string that is cut is read from {sorted(owners)}.{sorted(shapes)}", ok=ok, nontrivial=True, line=arm.lineno)
         if not ok:
-            ctx.report("R09a", wrapper, arm, f"text_str sources {srcs}", "the string that is cut is not re-read from the container's live text/tail slot")
+            ctx.report("R09a", wrapper, arm, f"cut string sources {sorted(owners)} {sorted(shapes)}", "the string that is cut is not re-read from the container's live text/tail slot")
     # wrapped builders place both pieces
     for q, ctor in (("Paragraph.set_span", "Span"), ("Paragraph.set_link", "Link")):
         f = repo.func(q)
@@ -138,9 +161,17 @@ def r09a(ctx):
                        f"{q} must wrap `match` in the new {ctor} and hang `tail` after it: otherwise the matched text or the text after it is lost")
     # the wrapper hands (match, tail) to the builder in that order
     for arm in arms:
+        cv = _cut_var(arm)
+        sl = _slices_of(arm, cv)
+        mid = [node for lo, hi, node in sl if lo is not None and hi is not None]
+        last = [node for lo, hi, node in sl if lo is not None and hi is None]
+        hm = _holders(arm, mid[0]) if mid else set()
+        hl = _holders(arm, last[0]) if last else set()
         mc = [c for c in walk_no_nested(arm) if isinstance(c, ast.Call) and call_name(c) == "method"]
-        ok = bool(mc) and len(mc[0].args) >= 3 and [ast.unparse(a) for a in mc[0].args[:3]] == ["element", "match", "tail"]
-        ctx.instance("R09a", f"{wrapper.file}:{wrapper.ident}", "method(element, match, tail, …)", ok=ok, line=arm.lineno)
+        wp = [a.arg for a in wrapper.all_params()]
+        ok = bool(mc) and len(mc[0].args) >= 3 and isinstance(mc[0].args[0], ast.Name) and mc[0].args[0].id == (wp[0] if wp else "element") \
+            and isinstance(mc[0].args[1], ast.Name) and mc[0].args[1].id in hm and isinstance(mc[0].args[2], ast.Name) and mc[0].args[2].id in hl
+        ctx.instance("R09a", f"{wrapper.file}:{wrapper.ident}", "method(element, <matched piece>, <piece after it>, …)", ok=ok, line=arm.lineno)
         if not ok:
             ctx.report("R09a", wrapper, arm, "method(…) argument order", "the wrapped builder does not receive (element, match, tail) in that order")
 
@@ -154,23 +185,37 @@ def r09b(ctx):
         for n in walk_no_nested(f.node):
             if not (isinstance(n, ast.If) and n.orelse):
                 continue
-            t = ast.unparse(n.test)
-            if not (t == "is_text" or t.endswith(".is_text") or t.endswith(".is_text()")):
+            # the test is the text node's own slot predicate: `<x>.is_text()` itself or a local defined from it
+            tc = canon(f, n.test)
+            if not (tc.endswith(".is_text") or tc.endswith(".is_text()")):
                 continue
             stores_t = [a.targets[0] for s in n.body for a in ast.walk(s) if isinstance(a, ast.Assign) and isinstance(a.targets[0], ast.Attribute) and a.targets[0].attr in ("text", "tail")]
             stores_f = [a.targets[0] for s in n.orelse for a in ast.walk(s) if isinstance(a, ast.Assign) and isinstance(a.targets[0], ast.Attribute) and a.targets[0].attr in ("text", "tail")]
             if not stores_t and not stores_f:
                 continue  # the read arm (text_str = …) is checked by R09a
-            cont = {ast.unparse(x.value) for x in stores_t + stores_f if ast.unparse(x.value) in ("container", "parent")}
+            # one owner: the element whose .text is written in the true arm and whose .tail is written in the false arm
+            owners_t = {ast.unparse(x.value) for x in stores_t if x.attr == "text"}
+            owners_f = {ast.unparse(x.value) for x in stores_f if x.attr == "tail"}
+            cont = owners_t & owners_f
             c = next(iter(cont)) if len(cont) == 1 else None
-            ok = c is not None and any(x.attr == "text" and ast.unparse(x.value) == c for x in stores_t) and \
-                not any(x.attr == "tail" and ast.unparse(x.value) == c for x in stores_t) and \
-                any(x.attr == "tail" and ast.unparse(x.value) == c for x in stores_f) and not any(x.attr == "text" and ast.unparse(x.value) == c for x in stores_f)
+            ok = c is not None and not any(x.attr == "tail" and ast.unparse(x.value) == c for x in stores_t) \
+                and not any(x.attr == "text" and ast.unparse(x.value) == c for x in stores_f)
             # placement of the new element
             calls_t = [x for s in n.body for x in ast.walk(s) if isinstance(x, ast.Call) and call_name(x) == "insert"]
             calls_f = [x for s in n.orelse for x in ast.walk(s) if isinstance(x, ast.Call) and call_name(x) in ("insert", "addnext")]
             first = any((repo.fold(get_arg(x, None, "position"), f.module) == 0) or (x.args and repo.fold(x.args[0], f.module) == 0) for x in calls_t)
-            nxt = any(call_name(x) == "addnext" or "index + 1" in ast.unparse(x) for x in calls_f)
+
+            def after_owner(x):
+                # addnext on the owner, or insert(…, position=<index of the owner in its parent> + 1)
+                if call_name(x) == "addnext":
+                    return True
+                pos = get_arg(x, 1, "position")
+                if isinstance(pos, ast.BinOp) and isinstance(pos.op, ast.Add) and isinstance(pos.right, ast.Constant) and pos.right.value == 1:
+                    base = canon(f, pos.left)
+                    return ".index(" in base and c is not None and c in base
+                return False
+
+            nxt = any(after_owner(x) for x in calls_f)
             okp = first and nxt
             ctx.instance("R09b", f"{f.file}:{f.ident}", f"is_text arm writes {c}.text and inserts first child; else arm writes {c}.tail and inserts next sibling",
                          ok=ok and okp, nontrivial=True, line=n.lineno)
@@ -196,32 +241,40 @@ def r09c(ctx):
         ctx.instance("R09c", f"{f.file}:{f.ident}", "keep_tail is honoured", ok=False)
         ctx.report("R09c", f, f.node, "Element.delete ignores keep_tail", "Element.delete no longer has a branch that keeps the tail of the removed node")
         return
-    tailvar = None
-    for s in blk.body:
-        if isinstance(s, ast.Assign) and isinstance(s.targets[0], ast.Name) and "tail" in ast.unparse(s.value):
-            tailvar = s.targets[0].id
+    # roles by definition: the tail string (read from a `.tail`), the previous sibling (`.getprevious()`), the parent (receiver of `.remove(`)
+    tailvar = prevvar = None
+    for s_ in blk.body:
+        if isinstance(s_, ast.Assign) and isinstance(s_.targets[0], ast.Name):
+            if any(isinstance(x, ast.Attribute) and x.attr == "tail" for x in ast.walk(s_.value)):
+                tailvar = s_.targets[0].id
+            if isinstance(s_.value, ast.Call) and call_name(s_.value) == "getprevious":
+                prevvar = s_.targets[0].id
+    rm_recv = [ast.unparse(c.func.value) for c in walk_no_nested(f.node) if isinstance(c, ast.Call) and call_name(c) == "remove" and isinstance(c.func, ast.Attribute)]
     inner = [n for n in blk.body if isinstance(n, ast.If)]
-    ok = tailvar is not None and bool(inner)
+    ok = tailvar is not None and prevvar is not None and bool(inner) and bool(rm_recv)
     if ok:
         top = inner[-1]
 
-        def arm_ok(body, slot_attr, slot_owner_hint):
+        def arm_ok(body, slot_attr, owner_text):
             sub = [n for n in body if isinstance(n, ast.If)]
             if not sub:
                 return False
-            a, b = sub[0].body, sub[0].orelse
-            st = [x for x in a if isinstance(x, ast.Assign)] + [x for x in b if isinstance(x, (ast.AugAssign, ast.Assign))]
+            a_, b_ = sub[0].body, sub[0].orelse
+            st = [x for x in a_ if isinstance(x, ast.Assign)] + [x for x in b_ if isinstance(x, (ast.AugAssign, ast.Assign))]
             if len(st) != 2:
                 return False
             for x in st:
                 tgt = x.targets[0] if isinstance(x, ast.Assign) else x.target
-                if not (isinstance(tgt, ast.Attribute) and tgt.attr == slot_attr and slot_owner_hint in ast.unparse(tgt.value)):
+                if not (isinstance(tgt, ast.Attribute) and tgt.attr == slot_attr and ast.unparse(tgt.value) == owner_text):
                     return False
                 if ast.unparse(x.value) != tailvar:
                     return False
             return isinstance(st[1], ast.AugAssign) and isinstance(st[1].op, ast.Add)
 
-        ok = arm_ok(top.body, "tail", "prev") and arm_ok(top.orelse, "text", "parent") and "prev is not None" in ast.unparse(top.test)
+        t = top.test
+        has_prev = isinstance(t, ast.Compare) and len(t.ops) == 1 and isinstance(t.ops[0], ast.IsNot) and isinstance(t.left, ast.Name) and t.left.id == prevvar \
+            and isinstance(t.comparators[0], ast.Constant) and t.comparators[0].value is None
+        ok = has_prev and arm_ok(top.body, "tail", prevvar) and arm_ok(top.orelse, "text", rm_recv[0])
     ctx.instance("R09c", f"{f.file}:{f.ident}", "tail → prev.tail (=/+=) when a previous sibling exists, else → parent.text (=/+=)", ok=ok, nontrivial=True, line=blk.lineno)
     if not ok:
         ctx.report("R09c", f, blk, "keep_tail arms", "Element.delete(keep_tail=True) does not move the removed node's tail into prev.tail or parent.text on every path: "
@@ -244,67 +297,60 @@ def r09c(ctx):
     def sources(e: ast.expr) -> list[str]:
         out = []
         for x in ast.walk(e):
-            if isinstance(x, ast.Attribute) and x.attr in ("text", "tail") and isinstance(x.value, ast.Name) and x.value.id not in ("self",):
-                out.append(x.attr)
+            if isinstance(x, ast.Attribute) and x.attr in ("text", "tail", "children") and isinstance(x.value, ast.Name) and x.value.id not in ("self",):
+                if x.attr not in out:
+                    out.append(x.attr)
+            elif isinstance(x, ast.Call) and call_name(x) == "_strip_tags":
+                if "children" not in out:
+                    out.append("children")  # a stripped child (or the list of pieces it dissolved into) stands where the child stood
             elif isinstance(x, ast.Name) and x.id in src:
                 for s_ in src[x.id]:
                     if s_ not in out:
                         out.append(s_)
         return out
 
-    kid_lists = set()
     events = []  # (line, kind, detail)
     stmts = sorted([n for n in walk_no_nested(g.node) if isinstance(n, (ast.Assign, ast.AnnAssign, ast.Expr, ast.For, ast.Return))], key=lambda n: n.lineno)
-    for n in stmts:
-        if isinstance(n, (ast.Assign, ast.AnnAssign)):
-            tgt = n.targets[0] if isinstance(n, ast.Assign) else n.target
-            val = n.value
-            if val is None:
-                continue
-            if isinstance(tgt, ast.Name):
-                ss = sources(val)
-                if ss:
-                    src[tgt.id] = ss
-                elif isinstance(val, (ast.List,)) and not val.elts:
-                    src.setdefault(tgt.id, [])
-                if isinstance(val, ast.List) and not val.elts and tgt.id == "children":
-                    kid_lists.add(tgt.id)
-            elif isinstance(tgt, ast.Attribute) and tgt.attr == "tail" and isinstance(tgt.value, ast.Name):
-                events.append((n.lineno, "tail=", (tgt.value.id, sources(val))))
-        elif isinstance(n, ast.Expr) and isinstance(n.value, ast.Call) and isinstance(n.value.func, ast.Attribute) and isinstance(n.value.func.value, ast.Name):
-            c = n.value
-            recv, m = c.func.value.id, c.func.attr
-            if m in ("append", "extend") and c.args:
-                arg = c.args[0]
-                ss = sources(arg)
-                if isinstance(arg, ast.Name) and (arg.id in kid_lists or arg.id in ("child", "striped_child")):
-                    ss = ["children"]
-                if recv == "children":
-                    kid_lists.add("children")
+    for _pass in range(2):  # second pass: loop-carried flows (a list filled in a loop and read later is complete after one pass; names bound late need two)
+        events = []
+        for n in stmts:
+            if isinstance(n, (ast.Assign, ast.AnnAssign)):
+                tgt = n.targets[0] if isinstance(n, ast.Assign) else n.target
+                val = n.value
+                if val is None:
                     continue
-                src.setdefault(recv, [])
-                for s_ in ss:
-                    if s_ not in src[recv]:
-                        src[recv].append(s_)
-            elif m in ("__append", "_Element__append") and c.args:
-                arg = c.args[0]
-                ss = sources(arg)
-                if isinstance(arg, ast.Name) and arg.id in ("child",):
-                    ss = ["children"]
-                events.append((n.lineno, "rebuild-append", (recv, ss)))
-            elif m == "clear":
-                events.append((n.lineno, "clear", recv))
-        elif isinstance(n, ast.For) and isinstance(n.target, ast.Name):
-            it = n.iter
-            if isinstance(it, ast.Name) and it.id in src:
-                src[n.target.id] = list(src[it.id])
-            elif isinstance(it, ast.Name) and it.id in kid_lists:
-                src[n.target.id] = ["children"]
-        elif isinstance(n, ast.Return) and isinstance(n.value, ast.Tuple) and n.value.elts and isinstance(n.value.elts[0], ast.Name):
-            events.append((n.lineno, "return", (n.value.elts[0].id, list(src.get(n.value.elts[0].id, [])))))
-    # fix-up: children lists referenced by name inside sources
-    for k, v in src.items():
-        pass
+                if isinstance(tgt, ast.Name):
+                    ss = sources(val)
+                    if ss:
+                        src[tgt.id] = ss
+                    elif isinstance(val, (ast.List,)) and not val.elts:
+                        src.setdefault(tgt.id, [])
+                elif isinstance(tgt, (ast.Tuple, ast.List)):
+                    ss = sources(val)
+                    for t_ in tgt.elts:
+                        if isinstance(t_, ast.Name) and ss and t_ is tgt.elts[0]:
+                            src[t_.id] = ss  # (piece, modified-flag): the piece is the first element
+                elif isinstance(tgt, ast.Attribute) and tgt.attr == "tail" and isinstance(tgt.value, ast.Name):
+                    events.append((n.lineno, "tail=", (tgt.value.id, sources(val))))
+            elif isinstance(n, ast.Expr) and isinstance(n.value, ast.Call) and isinstance(n.value.func, ast.Attribute) and isinstance(n.value.func.value, ast.Name):
+                c = n.value
+                recv, m = c.func.value.id, c.func.attr
+                if m in ("append", "extend") and c.args:
+                    ss = sources(c.args[0])
+                    src.setdefault(recv, [])
+                    for s_ in ss:
+                        if s_ not in src[recv]:
+                            src[recv].append(s_)
+                elif m in ("__append", "_Element__append") and c.args:
+                    events.append((n.lineno, "rebuild-append", (recv, sources(c.args[0]))))
+                elif m == "clear":
+                    events.append((n.lineno, "clear", recv))
+            elif isinstance(n, ast.For) and isinstance(n.target, ast.Name):
+                ss = sources(n.iter)
+                if ss:
+                    src[n.target.id] = ss
+            elif isinstance(n, ast.Return) and isinstance(n.value, ast.Tuple) and n.value.elts and isinstance(n.value.elts[0], ast.Name):
+                events.append((n.lineno, "return", (n.value.elts[0].id, list(src.get(n.value.elts[0].id, [])))))
     dropped = [d for ln, k, d in events if k == "return" and d[1]]
     ok1 = bool(dropped) and all(d[1] == ["text", "children", "tail"] for d in dropped)
     ctx.instance("R09c", f"{g.file}:{g.ident}", f"a dropped tag hands back {[d[1] for d in dropped]} (text, children, tail in order)", ok=ok1, nontrivial=True)
